@@ -7,6 +7,8 @@ send sequence of its sender (`streamOf`): `StreamOK` holds, so the Kahn invarian
 hypothesis about arrivals.
 -/
 namespace QM.Sys
+set_option linter.unusedSectionVars false
+variable [Cfg]
 
 /-! ### static send sequences -/
 
